@@ -210,6 +210,7 @@ type reqSpec struct {
 	uid      string
 	client   string // "", "commit", "abort": go through storage.Client over real HTTP
 	net      bool   // send the (cut) body over a real connection announcing the full length, then close
+	dayOff   int    // day of the request, as an offset from the base date of the scripted clock
 }
 
 type scenario struct {
@@ -694,7 +695,15 @@ func runScenario(id int, sc *scenario) {
 	}
 }
 
-func utcDay() string { return time.Now().UTC().Format("20060102") }
+// the scripted clock db.NewUpload reads (export hook VerifSetNow); days are offsets from a fixed date
+// two days before a month end, so that offsets cross 20260930 -> 20261001
+var clock = time.Date(2026, 9, 28, 12, 0, 0, 0, time.UTC)
+
+func setDayOffset(off int) {
+	clock = time.Date(2026, 9, 28+off, 12, 0, 0, 0, time.UTC)
+}
+
+func utcDay() string { return clock.Format("20060102") }
 
 func runScenarioOnce(id int, sc *scenario) bool {
 	day := utcDay()
@@ -741,6 +750,7 @@ func runScenarioOnce(id int, sc *scenario) bool {
 
 		before := s.snap()
 		nidsBefore := len(s.ffs.ids)
+		setDayOffset(rq.dayOff)
 		reqDay := utcDay()
 		s.ffs.reset(rq.fault)
 		var resp response
@@ -1045,6 +1055,7 @@ func (g *gen) wrap(faulted reqSpec, tags ...string) *scenario {
 func main() {
 	defer hx.Flush()
 	log.SetOutput(io.Discard)
+	db.VerifSetNow(func() time.Time { return clock })
 	shard, _ := strconv.Atoi(os.Getenv("VERIF_SHARD"))
 	nshards, _ := strconv.Atoi(os.Getenv("VERIF_NSHARDS"))
 	if nshards <= 0 {
@@ -1181,6 +1192,29 @@ func main() {
 			rq.cutAt = len(body) - 5 - g.r.Intn(60)
 		}
 		g.emit(g.wrap(rq, "midflush"))
+	}
+
+	// 5. the clock: day changes between requests, also backwards (NewUpload then collides with an
+	// existing row of the earlier day and refuses; a day without rows starts again at 1)
+	patterns := [][]int{{0, 0, 1, 1}, {0, 1, 0}, {1, 0, 0, 1}, {0, 2, 1, 2, 0, 3}, {2, 3, 4, 3, 2}, {3, 3, 0, 3}, {0, 5, 5, 0, 1, 5}}
+	for i := 0; i < hx.N(14, 140); i++ {
+		pat := patterns[i%len(patterns)]
+		sc := &scenario{user: hx.Pick(g.r, []string{"user", ""}), store: "local", tags: []string{"clock"}}
+		for j, off := range pat {
+			rq := goodReq(g.r, g.uid(), 1+g.r.Intn(2))
+			rq.dayOff = off
+			if i >= len(patterns) && g.r.Chance(1, 4) {
+				rq.parts = append(rq.parts, partSpec{form: "abort", content: "1"})
+			}
+			if j > 0 && off < pat[j-1] {
+				sc.tags = append(sc.tags, "clock-back")
+			}
+			if j > 0 && off > pat[j-1] {
+				sc.tags = append(sc.tags, "clock-forward")
+			}
+			sc.reqs = append(sc.reqs, rq)
+		}
+		g.emit(sc)
 	}
 
 	runIDs(g)
